@@ -52,7 +52,9 @@ func ZZ_C04_rp(a []int) {
 // every value at once, type nibble and remaining length left as they are.
 func ZZ_C04_window(a []int) {
 	w := a[0]
-	abs := zzGen(zzShapeOf(a[1:]))
+	sh := zzShapeOf(a[1:])
+	sh.nz = 3 // concrete template: only the window is symbolic
+	abs := zzGen(sh)
 	body := zzRefBody(abs)
 	b0 := byte(abs.typ)<<4 | abs.hflags
 	if len(body) < w {
